@@ -193,7 +193,7 @@ theorem C09_failure_atomic_fails_at :
 
 theorem C09_failure_atomic_false : ¬ C09_failure_atomic := by
   intro hfull
-  have h1 := hfull f4Heap f4Key f4Graph (some 0) Hooks.empty (by intro o k rc hm; cases hm)
+  have h1 := hfull f4Heap f4Key f4Graph (some 0) Hooks.empty WF_empty
     (by rw [C09_failure_atomic_fails_at.1]; simp) (.trait 1 8) (.user f4Key)
   rw [C09_failure_atomic_fails_at.2.1, C09_failure_atomic_fails_at.2.2] at h1
   omega
@@ -228,7 +228,7 @@ example : walkOk exHeap true exGraph (some 0) = true ∧
     cnt (regN exHeap f4Key false exGraph (some 0) 2 Hooks.empty).H (.trait 1 nValue) (.user f4Key) = 2 := by decide
 
 example : WF Hooks.empty ∧ NoKey Hooks.empty f4Key :=
-  ⟨by intro o k rc hm; cases hm, by intro o q _; rfl⟩
+  ⟨WF_empty, by intro o q _; rfl⟩
 
 /-- `firstFail` is satisfiable: `child.nosuch` raises at the first object of the first child. -/
 example : firstFail exHeap (.node (.named nChild true false) [.node (.named 11 true false) []]) (some 0) = true := by
